@@ -44,3 +44,7 @@ VARIANTS = [
     v("c14-twin-len", S, "    n = xx.size\n    yy[:] = 0\n", "    n = len(xx)\n    yy[:] = 0\n", expect="silent"),
     v("c14-twin-loopwrite", S, "    n = xx.size\n    yy[:] = 0\n    for ii in range(n):\n", "    n = xx.size\n    for ii in range(n):\n        yy[ii] = 0\n", expect="silent", note="per-cell initialisation instead of the full-slice store"),
 ]
+
+VARIANTS += [
+    v("c14-empty-work", D, "    d = z.copy()\n    c = z.copy()\n    e = z.copy()\n", "    d = empty(n)\n    c = empty(n)\n    e = empty(n)\n", names="R-INIT", note="seeded C14a: wrapped index at n = 3 reads uninitialised cells"),
+]
